@@ -40,6 +40,12 @@ def post_selections(nv):
     out.append(("predicate", lambda: (lambda s: s[0] <= 1 and sum(s) >= 1)))
     # a predicate written against the State it is documented to receive (photon count, comparison with a State)
     out.append(("predicate_state_api", lambda: (lambda s: s.n_photons >= 1 and s != lw.State([1] + [0] * (nv - 1)))))
+    # a predicate whose answers are truthy/falsy values, not bools (and/or return an operand)
+    out.append(("predicate_truthy", lambda: (lambda s: s[0] and (sum(s) - s[0] + 1))))
+    if nv >= 3:
+        def far():
+            p = lw.PostSelection(); p.add((0, nv - 1), (0, 1)); return p
+        out.append(("rule((0,last):(0,1))", far))
     return out
 
 
@@ -48,6 +54,8 @@ def validate(ps, vis):
         return True
     if callable(ps) and not hasattr(ps, "validate"):
         return bool(ps(lw.State(list(vis))))
+    if hasattr(ps, "rules"):          # the stated meaning of a rule set, not the library's evaluation of it
+        return all(sum(vis[m] for m in modes) in counts for modes, counts in (r.as_tuple() for r in ps.rules))
     return bool(ps.validate(lw.State(list(vis))))
 
 
